@@ -54,7 +54,7 @@ pub fn tokenize(source: &str, file_id: &FileId) -> (Vec<Token>, Vec<Diagnostic>)
                                     col = 0;
                                 }
                                 _ => {
-                                    col += 0;
+                                    col += c.len_utf8();
                                 }
                             }
                         }
